@@ -161,7 +161,8 @@ def _prefixes(depth):
 
 def _shards(tier):
     if tier == "quick":
-        return [{"n": 6, "first": p} for p in _prefixes(2)]
+        # + longer histories behind a run that was interrupted by an outage and then stopped
+        return [{"n": 6, "first": p} for p in _prefixes(2)] + [{"n": 8, "first": ["start", o, "register", "stop"]} for o in ("disconnect", "restart")]
     return [{"n": 8, "first": p} for p in _prefixes(4)]
 
 
@@ -184,7 +185,7 @@ OBLIGATIONS = [Obligation(
              "openpectus.aggregator.data.repository:PlotLogRepository.store_tag_values"],
     symbolic="the history (selector per step over RunStarted/RunStopped, TagsUpdatedMsg, engine disconnect, re-registration, aggregator restart), "
              "tick time (real) and int value of every tag update, the data-log interval (positive real)",
-    bounds={"quick": "histories of 6 events after the initial registration; one engine, up to 3 consecutive runs",
+    bounds={"quick": "histories of 6 events after the initial registration, and of 8 events behind the prefix start/outage/register/stop; one engine, up to 3 consecutive runs",
             "thorough": "histories of 8 events; one engine, up to 3 consecutive runs"},
     assumptions=ASSUMPTIONS_DB + [
         "aggregator restart = graceful stop (Aggregator.shutdown(), as AggregatorServer.stop does) followed by a new Aggregator over the same "
